@@ -57,7 +57,7 @@ impl Property for C17 {
     }
     fn cases(&self, tier: Tier) -> u64 {
         match tier {
-            Tier::Quick => 100000,
+            Tier::Quick => 200_000,
             Tier::Thorough => 1500000,
         }
     }
